@@ -1,0 +1,10 @@
+//go:build verif
+
+package batching
+
+// VerifPending returns a copy of the batch that has not been flushed yet (verification harness only).
+func (b *EventBatcher[T]) VerifPending() []T {
+	b.mu.Lock()
+	defer b.mu.Unlock()
+	return append([]T(nil), b.batch...)
+}
